@@ -36,6 +36,9 @@ def userFn? : Sexp → Option UserFn
   | .list [.atom name, b, r, rl, fr, ns, bv, sc, kc] => do
       pure { name := name, bound := ← strs? b, read := ← strs? r, readLocal := ← strs? rl, free := ← strs? fr, ns := ← strs? ns,
              blockVarRoots := ← strs? bv, starCalls := ← sc.bool?, kwCalls := ← kc.bool? }
+  | .list [.atom name, b, r, rl, fr, ns, bv, sc, kc, ndo] => do
+      pure { name := name, bound := ← strs? b, read := ← strs? r, readLocal := ← strs? rl, free := ← strs? fr, ns := ← strs? ns,
+             blockVarRoots := ← strs? bv, starCalls := ← sc.bool?, kwCalls := ← kc.bool?, nestedDefOnly := ← strs? ndo }
   | _ => none
 
 def pass? : Sexp → Option (String × List Call)
@@ -57,6 +60,7 @@ def classPairs (f : UserFn) (roots : List String) : List (String × String) :=
   names.foldr (fun x acc =>
     (if clsBoundOnly f roots x then [(x, "bound_only_user_name_equals_generated_root")] else []) ++
     (if clsNestedBound f roots x then [(x, "nested_scope_bound_name_equals_generated_root")] else []) ++
+    (if clsNestedBoundShared f roots x then [(x, "nested_scope_bound_name_equals_generated_root:shared_or_captured")] else []) ++
     (if clsLateFree f x then [(x, "free_name_outside_namespace_equals_transpiler_name")] else []) ++
     (if clsFixed f x then [(x, "user_name_equals_hard_coded_template_identifier")] else []) ++
     (if clsBuiltinShadow f x then [(x, "user_binding_shadows_builtin_referenced_by_generated_code")] else []) ++
